@@ -152,6 +152,23 @@ Theorem c07_admin_ban_nonpositive : forall c h d now bl, d <= 0 -> admin_ban c h
 Proof. exact admin_ban_nonpositive. Qed.
 Print Assumptions c07_admin_ban_nonpositive.
 
+(** 6: the admin commands name a HOST.  After UNBAN h no address of the pool with host h is banned;
+    after BAN h d (d > 0) every replica of the pool with host h is banned — each of them, however
+    many servers share the host string and in whichever shard they are; and nothing else is added. *)
+Theorem c07_unban_host_clears : forall c h bl x, In x (servers c) -> a_host x = h -> ~ In x (keys (admin_unban c h bl)).
+Proof. exact unban_host_clears. Qed.
+Print Assumptions c07_unban_host_clears.
+
+Theorem c07_ban_host_covers : forall c h d now bl x, wfc c -> d > 0 -> In x (servers c) -> a_host x = h ->
+  a_role x = Replica -> In x (keys (admin_ban c h d now bl)).
+Proof. exact ban_host_covers. Qed.
+Print Assumptions c07_ban_host_covers.
+
+Theorem c07_ban_host_only : forall c h d now bl x, wfc c -> d > 0 -> ~ In x (keys bl) ->
+  In x (keys (admin_ban c h d now bl)) -> In x (servers c) /\ a_host x = h /\ a_role x = Replica.
+Proof. exact ban_host_only. Qed.
+Print Assumptions c07_ban_host_only.
+
 (** Question (b): a banned address that passes the gate is health-checked even if its connection
     is fresh, and is re-banned if the check fails. *)
 Theorem c07_unbanned_is_health_checked : forall c tc bc outs a bl fresh h,
@@ -348,6 +365,13 @@ Proof. vm_compute. reflexivity. Qed.
 Example ex_oob :
   run C3 [] [OobPrepare R1 OobServerError 100; OobPrepare R2 OobOk 100] = [] /\
   run C3 [] [OobPrepare R1 OobServerError 100; OobPrepare R2 OobConnFail 101] = [(R2, (MessageSendFailed, 101))].
+Proof. vm_compute. auto. Qed.
+
+(** three servers of two shards on one host (different ports): BAN reaches all replicas among them *)
+Example ex_shared_host :
+  let A := mkAddr 1 0 Replica 20 in let B := mkAddr 2 0 Replica 20 in let D := mkAddr 4 1 Replica 20 in let Q := mkAddr 3 1 Primary 20 in
+  let c := mkCfg [P; A; B; Q; D] 2 60 (DShard 0) in
+  keys (admin_ban c 20 5 100 []) = [D; B; A] /\ admin_unban c 20 (admin_ban c 20 5 100 []) = [].
 Proof. vm_compute. auto. Qed.
 
 (** UNBAN *)
